@@ -151,3 +151,125 @@ def c10(X, src, mode="exec"):
 
 
 ORACLES = {"c10": c10}
+
+
+# ------------------------------------------------------------------ C05
+HOLE = "hole__"
+CONSTRUCTS = {
+    "env": ("$HOME", "__xonsh__.env['HOME']"),
+    "envexpr": ("${'a' + b}", "__xonsh__.env[str('a' + b)]"),
+    "captured": ("$(ls -l)", "__xonsh__.subproc_captured('ls', '-l')"),
+    "uncaptured": ("$[ls -l]", "__xonsh__.subproc_uncaptured('ls', '-l')"),
+    "object": ("!(ls -l)", "__xonsh__.subproc_captured_object('ls', '-l')"),
+    "hidden": ("![ls -l]", "__xonsh__.subproc_captured_hiddenobject('ls', '-l')"),
+    "search": ("`a.*`", "__xonsh__.pathsearch('`a.*`')"),
+    "gsearch": ("g`*.py`", "__xonsh__.pathsearch('g`*.py`')"),
+    "path": ("p'/tmp'", "__xonsh__.path_literal('/tmp')"),
+    "help": ("foo?", "__xonsh__.help(foo)"),
+    "superhelp": ("foo??", "__xonsh__.superhelp(foo)"),
+    "and": ("(hA && hB)", "(hA and hB)"),
+    "or": ("(hA || hB)", "(hA or hB)"),
+    "nested": ("$(echo $(pwd) $HOME)", "__xonsh__.subproc_captured('echo', __xonsh__.subproc_captured('pwd'), __xonsh__.env['HOME'])"),
+}
+_TARGET_FIELDS = {
+    ("Assign", "targets"), ("AugAssign", "target"), ("AnnAssign", "target"), ("AnnAssign", "annotation"), ("arg", "annotation"),
+    ("FunctionDef", "returns"), ("AsyncFunctionDef", "returns"), ("Delete", "targets"), ("For", "target"), ("AsyncFor", "target"),
+    ("withitem", "optional_vars"), ("comprehension", "target"), ("NamedExpr", "target"), ("TypeAlias", "name"),
+}
+
+
+def _hole_status(tree):
+    """('load', node) if the placeholder Name is an admissible expression hole, else (reason, None)"""
+    found = []
+
+    def walk(n, path):
+        for f in n._fields:
+            v = getattr(n, f, None)
+            items = v if isinstance(v, list) else [v]
+            for x in items:
+                if isinstance(x, ast.AST):
+                    p2 = path + [(type(n).__name__, f, isinstance(v, list) and f == "decorator_list")]
+                    if isinstance(x, ast.Name) and x.id == HOLE:
+                        found.append((x, p2))
+                    walk(x, p2)
+    walk(tree, [])
+    if len(found) != 1:
+        return "placeholder-count-%d" % len(found), None
+    node, path = found[0]
+    if not isinstance(node.ctx, ast.Load):
+        return "not-load", None
+    for tn, f, _ in path:
+        if (tn, f) in _TARGET_FIELDS:
+            return "inside-target-or-annotation", None
+    if path and path[-1][1] == "decorator_list":
+        return "directly-after-decorator", None
+    return "load", node
+
+
+def strip_pos(tree):
+    return ast.dump(tree, include_attributes=False)
+
+
+def c05(X, template, construct, mode="exec"):
+    """template contains '@@' once; construct is a key of CONSTRUCTS"""
+    text, trans = CONSTRUCTS[construct]
+    if template.count("@@") != 1:
+        return None
+    kp, tp = O.run_parse(X, template.replace("@@", HOLE), mode)
+    if kp != "ok":
+        return None
+    st, node = _hole_status(tp)
+    if st != "load":
+        return None
+    kt, tt = O.run_parse(X, template.replace("@@", trans), mode)
+    if kt != "ok":
+        return None   # the written-out Python must itself be acceptable in this context
+    src = template.replace("@@", text)
+    kc, tc = O.run_parse(X, src, mode)
+    if kc != "ok":
+        return {"kind": "construct-rejected-in-context", "observed": [kc, O.exc_sig(tc) if isinstance(tc, BaseException) else None],
+                "expected": "same tree as the written-out translation", "source": src}
+    a, b = strip_pos(tc), strip_pos(tt)
+    if a != b:
+        return {"kind": "desugaring-differs", "diff": O.first_diff(a, b), "source": src}
+    # span of the construct node = the inserted text range
+    i = template.index("@@")
+    line = template.count("\n", 0, i) + 1
+    col = i - (template.rfind("\n", 0, i) + 1)
+    if "\n" in text:
+        return None
+    inner_l, inner_r = (1, 1) if construct in ("and", "or") else (0, 0)
+    want = (line, col + inner_l, line, col + len(text) - inner_r)
+    spans = [(getattr(n, "lineno", None), getattr(n, "col_offset", None), getattr(n, "end_lineno", None), getattr(n, "end_col_offset", None))
+             for n in ast.walk(tc) if isinstance(n, ast.expr)]
+    if want not in spans:
+        near = [s for s in spans if s[0] == line and s[1] is not None and abs(s[1] - want[1]) <= 2][:4]
+        return {"kind": "construct-span-differs", "observed": near, "expected": list(want), "source": src}
+    return None
+
+
+def c05_target(X, template, construct="env", mode="exec"):
+    """$NAME / ${expr} as binding targets: template has '@@' in a Store position of the placeholder run"""
+    text, trans = CONSTRUCTS[construct]
+    kp, tp = O.run_parse(X, template.replace("@@", HOLE), mode)
+    if kp != "ok":
+        return None
+    names = [n for n in ast.walk(tp) if isinstance(n, ast.Name) and n.id == HOLE]
+    if len(names) != 1 or not isinstance(names[0].ctx, ast.Store):
+        return None
+    for n in ast.walk(tp):
+        if isinstance(n, (ast.AugAssign, ast.AnnAssign, ast.NamedExpr, ast.Global, ast.Nonlocal)) and any(x is names[0] for x in ast.walk(n)):
+            return None
+        if isinstance(n, (ast.FunctionDef, ast.ClassDef, ast.AsyncFunctionDef)) and n.name == HOLE:
+            return None
+    src = template.replace("@@", text)
+    kc, tc = O.run_parse(X, src, mode)
+    if kc != "ok":
+        return {"kind": "env-target-rejected", "observed": [kc, O.exc_sig(tc) if isinstance(tc, BaseException) else None], "expected": "accepted with Store context", "source": src}
+    subs = [n for n in ast.walk(tc) if isinstance(n, ast.Subscript) and isinstance(n.value, ast.Attribute) and n.value.attr == "env"]
+    if not subs or not any(isinstance(n.ctx, ast.Store) for n in subs):
+        return {"kind": "env-target-not-store", "observed": [type(n.ctx).__name__ for n in subs], "expected": "Store", "source": src}
+    return None
+
+
+ORACLES.update({"c05": c05, "c05_target": c05_target})
